@@ -23,6 +23,10 @@ pub fn node_model_line(op: &str) -> Option<String> {
         ["hb"] | ["blk+", _] | ["blkn", _] | ["blk-", _] => Some(op.to_string()),
         // the same block through the protocol handler's AddBlock arm
         ["HBLK+", g] => Some(format!("blk+ {}", g)),
+        // channel creation / forgetting / the heartbeat through the protocol handler's arms
+        ["HNEW", d] => Some(format!("newch {}", d)),
+        ["HFORGET", w] => Some(format!("forget {}", w)),
+        ["HHB"] => Some("hb".to_string()),
         _ => None,
     }
 }
@@ -120,6 +124,8 @@ impl Group for C10Sim {
             // a full map of aged stubs: a creation refused for its retired id (and one refused for the full map) must
             // not collect the garbage on the way
             c("newch 5|forget 1|newch 6|newch 7|newch 8|blkn 7|newch 3|newch 9|hb|newch 9|newch 5"),
+            // the same through the protocol handler's NewChannel / ForgetChannel / GetHeartbeat / AddBlock arms
+            c("HNEW 5|HFORGET 1|HNEW 6|newch 7|HNEW 8|blkn 7|HNEW 3|HNEW 9|HHB|HNEW 9|HNEW 5|HFORGET 2|HBLK+ g|HBLK+ b"),
             // re-signing the funding transaction: accepted, then refused at the signing step
             c("osign g|osign b|vh 0 g 0|rv 0|osign g"),
         ]
@@ -131,6 +137,15 @@ impl Group for C10Sim {
         // the one thing that entry makes durable late: keep the two apart in model-compared cases
         if ops.iter().any(|o| o.starts_with("sinv")) {
             for o in ops.iter_mut() { if o.starts_with("osign") { *o = "hb".to_string(); } }
+        }
+        // a third of the node-level requests arrive through the protocol handler's arms
+        for o in ops.iter_mut() {
+            if rng.chance(1, 3) {
+                if let Some(r) = o.strip_prefix("newch ") { *o = format!("HNEW {}", r); }
+                else if let Some(r) = o.strip_prefix("forget ") { *o = format!("HFORGET {}", r); }
+                else if o == "hb" { *o = "HHB".to_string(); }
+                else if o.starts_with("blk+ ") { *o = o.replacen("blk+", "HBLK+", 1); }
+            }
         }
         if rng.chance(1, 4) { ops.insert(0, "world perm".to_string()); }
         else if rng.chance(1, 10) { ops.insert(0, "world nocp".to_string()); }
